@@ -592,7 +592,7 @@ func (p *Peer) theirTurn() (bool, bool) {
 			}
 			want := fmt.Sprintf("%02X", (-sum)&0xff)
 			if len(s) != 5 || !strings.EqualFold(s[3:], want) {
-				p.complain("block checksum must be the two's complement of the byte sum of the proposal lines incl. CR: want "+want, s)
+				p.complain("block checksum must be two hex digits, the two's complement of the byte sum of the proposal lines incl. CR", s+" (want F> "+want+")")
 			}
 			goto answer
 		default:
